@@ -172,7 +172,13 @@ impl DbProc {
     /// "file.rs: message" of the first panic the child reported on stderr (line numbers removed)
     pub fn first_panic(&self) -> Option<String> {
         // give the reader thread a moment to drain the pipe
-        std::thread::sleep(Duration::from_millis(30));
+        for _ in 0..40 {
+            if self.stderr.lock().unwrap().contains("panicked at ") {
+                break;
+            }
+            std::thread::sleep(Duration::from_millis(25));
+        }
+        std::thread::sleep(Duration::from_millis(25));
         let b = self.stderr.lock().unwrap();
         let mut lines = b.lines();
         while let Some(l) = lines.next() {
